@@ -1,4 +1,5 @@
 import Nanite.Props.C11
+import Nanite.Props.C02
 import Nanite.Witness.C11
 open Nanite.C11
 open Nanite.C11W
@@ -11,3 +12,10 @@ open Nanite.C11W
 #print axioms c11_initial_guess_measured
 #print axioms c11_square_multiplicative
 #print axioms c11w_in_place_accumulates
+-- the shipped power-law model functions (regenerated from source) have the scaling C11 relies on
+open Nanite.C02 in
+#print axioms c11_hertz_para_scaling
+open Nanite.C02 in
+#print axioms c11_hertz_cone_scaling
+open Nanite.C02 in
+#print axioms c11_hertz_pyr3s_scaling
